@@ -1,7 +1,103 @@
 (* WireMisc.v — wire interfaces of the "misc" area (see docs/AGENT_GUIDE.md for the id range).
-   [run_misc c] receives the whole case (first element = interface id). *)
+   [run_misc c] receives the whole case (first element = interface id).
+
+   C19 (ids 110-119; 100-109 are left to the C06 package): the depth functions of
+   Model/Depth.v on the case's text; the lines are those of harness/src/area_misc.rs.
+
+     110 cp...            D parse=<n> <OK|ERR|ERR incomplete>
+     111 len cp1.. cp2..  D put=.. get=.. write=.. mark=.. equal=.. OK <equal? result> <write text>
+     112 cp...            D transform=.. compile=.. ffs=.. <OK|ERR>                          *)
 From Coq Require Import String.
-From MW Require Import Model.Base Model.Datum.
+From MW Require Import Model.Base Model.F64 Model.Num Model.NumFmt Model.Datum Model.Lex Model.Parse
+  Model.TransformDef Model.Transform Model.VmTypes Model.Heap Model.VmBase Model.Compile Model.Gc
+  Model.Depth.
 Open Scope N_scope.
 
-Definition run_misc (c : list N) : list N := S_ "BADCASE".
+Definition show_nat (n : nat) : list N := show_N (N.of_nat n).
+Definition show_status {A} (o : out A) : list N :=
+  match o with
+  | Ok _ => S_ "OK"
+  | Err e => if e =? E_INCOMPLETE then S_ "ERR incomplete" else S_ "ERR"
+  | Panic _ => S_ "PANIC"
+  | NoFuel => S_ "NOFUEL"
+  end.
+
+Definition run_parse_depth (t : text) : list N :=
+  let '(d, o) := parse_text_d t in
+  S_ "D parse=" ++ show_nat d ++ [32] ++ show_status o.
+
+(* fuel of the heap traversals: every frame visits a cell or a payload *)
+Definition heap_fuel (h : heap) (s : store) : nat :=
+  (4 * N.to_nat (hlen h) + 4 * N.to_nat (next_id s) + 16)%nat.
+
+Definition run_datum_depth (t1 t2 : text) : list N :=
+  match parse_text t1 with
+  | Ok (x, _) =>
+      match (match t2 with [] => Ok (x, None) | _ => parse_text t2 end) with
+      | Ok (y, _) =>
+          match maybe_put_cell (heap_new 1024) store_empty x with
+          | Ok (v, h1, s1) =>
+              let fuel := heap_fuel h1 s1 in
+              let '(dget, oget) := gac_d (fun _ => []) h1 s1 fuel v in
+              let '(dmark, _) :=
+                match v with
+                | VPtr p => mark_d h1 s1 (store_depth s1) fuel p (gcmap h1)
+                | other => mark_vcell_d s1 (fun p m => mark_d h1 s1 (store_depth s1) fuel p m)
+                                        (S (store_depth s1)) other (gcmap h1)
+                end in
+              (* (equal? 'X 'Y): X is put first, Y second; the builtin pops Y as `left` *)
+              match maybe_put_cell h1 s1 y with
+              | Ok (w, h2, s2) =>
+                  let '(deq, oeq) := equal_d Debug h2 s2 (heap_fuel h2 s2) w v in
+                  match oget with
+                  | Ok back =>
+                      S_ "D put=" ++ show_nat (maybe_put_cell_depth x)
+                      ++ S_ " get=" ++ show_nat dget
+                      ++ S_ " write=" ++ show_nat (display_depth back)
+                      ++ S_ " mark=" ++ show_nat dmark
+                      ++ S_ " equal=" ++ show_nat deq
+                      ++ S_ " OK " ++ match oeq with
+                                      | Ok true => S_ "#t" | Ok false => S_ "#f"
+                                      | Err _ => S_ "ERR" | Panic _ => S_ "PANIC" | NoFuel => S_ "NOFUEL"
+                                      end
+                      ++ [32] ++ esc_text (write back)
+                  | other => show_status other
+                  end
+              | Err e => show_status (@Err unit e) | Panic p => S_ "PANIC" | NoFuel => S_ "NOFUEL"
+              end
+          | Err e => show_status (@Err unit e) | Panic p => S_ "PANIC" | NoFuel => S_ "NOFUEL"
+          end
+      | other => show_status other
+      end
+  | other => show_status other
+  end.
+
+(* Vm::prepare_eval on a machine without macros: transform, then compile *)
+Definition run_expr_depth (t : text) : list N :=
+  match parse_text t with
+  | Ok (e, _) =>
+      let s0 := vm_empty 8192 in
+      let '(dt, ot) := transform_d TRANSFORM_FUEL s0 e in
+      let '(dc, df) := match ot with Ok e' => compile_depth e' | _ => (O, O) end in
+      let status := match compile_runnable e s0 with
+                    | ROk _ _ => S_ "OK" | RErr _ _ _ => S_ "ERR"
+                    | RPanic _ => S_ "PANIC" | RNoFuel => S_ "NOFUEL" end in
+      S_ "D transform=" ++ show_nat dt ++ S_ " compile=" ++ show_nat dc
+      ++ S_ " ffs=" ++ show_nat df ++ [32] ++ status
+  | other => show_status other
+  end.
+
+Fixpoint split_at {A} (n : nat) (l : list A) : list A * list A :=
+  match n, l with
+  | O, _ => ([], l)
+  | S k, x :: r => let '(a, b) := split_at k r in (x :: a, b)
+  | S _, [] => ([], [])
+  end.
+
+Definition run_misc (c : list N) : list N :=
+  match c with
+  | 110 :: t => run_parse_depth t
+  | 111 :: n :: r => let '(t1, t2) := split_at (N.to_nat n) r in run_datum_depth t1 t2
+  | 112 :: t => run_expr_depth t
+  | _ => S_ "BADCASE"
+  end.
